@@ -189,6 +189,35 @@ impl Lifecycle {
         self.resume_lc.as_ref().map(|r| r.id)
     }
 
+    /// verification hook: construct a lifecycle table entry with the given id, start time and resume origin
+    /// (used to exercise get_sorted_lifecycles_as_vec on arbitrary tables)
+    #[cfg(adlt_verif)]
+    pub fn verif_new(
+        id: LifecycleId,
+        ecu: DltChar4,
+        start_time: u64,
+        resume: Option<(LifecycleId, u64)>,
+    ) -> Lifecycle {
+        Lifecycle {
+            id,
+            ecu,
+            nr_msgs: 1,
+            nr_control_req_msgs: 0,
+            start_time,
+            initial_start_time: start_time,
+            min_timestamp_us: 0,
+            max_timestamp_us: 0,
+            last_reception_time: start_time,
+            resume_lc: resume.map(|(id, start_time)| ResumeLcInfo {
+                id,
+                max_timestamp_us: 0,
+                start_time,
+            }),
+            sw_version: None,
+            lcs_w_refresh_idx: 0,
+        }
+    }
+
     /// create a new lifecycle with the first msg passed as parameter
     pub fn new(msg: &mut DltMessage) -> Lifecycle {
         // println!("new lifecycle created by {:?}", msg);
